@@ -47,6 +47,10 @@ type LimScn struct {
 	Cfg     LimCfg    `json:"cfg"`
 	Events  []LimEv   `json:"events"`
 	Threads [][]LimEv `json:"threads,omitempty"` // C19 concurrent variant: request streams issued at one instant by several tasks
+	// C18 concurrent variant: requests issued one by one first, then a silence long enough for every bucket to
+	// refill and for the periodic cleanup to be due, so that cleanup runs in the middle of the concurrent burst
+	Pre        []LimEv `json:"pre,omitempty"`
+	PreSleepNs int64   `json:"pre_sleep_ns,omitempty"`
 	Sched   SchedCfg  `json:"sched"`
 }
 
@@ -131,6 +135,17 @@ func runLimiterConcurrent(o *Outcome, sc *LimScn) {
 func runLimiterBoundConcurrent(o *Outcome, sc *LimScn) {
 	cfg := sc.Cfg
 	rl := absnfs.NewRateLimiter(cfg.config())
+	for _, ev := range sc.Pre {
+		ip, conn := fmt.Sprintf("10.0.0.%d", ev.IP), fmt.Sprintf("conn-%d", ev.Conn)
+		if ev.Op == "" {
+			rl.AllowRequest(ip, conn)
+		} else {
+			rl.AllowOperation(ip, absnfs.OperationType(ev.Op))
+		}
+	}
+	if sc.PreSleepNs > 0 {
+		simrt.Sleep(time.Duration(sc.PreSleepNs)) // every bucket is full again (capped at its burst): the bound of the burst below is unchanged
+	}
 	type res struct {
 		ev LimEv
 		ok bool
@@ -468,6 +483,14 @@ func genC18(r *simrt.Rand, tier string) any {
 			}
 			sc.Threads = append(sc.Threads, th)
 		}
+		if r.Pct(50) {
+			for i, n := 0, 2+r.Int(6); i < n; i++ {
+				sc.Pre = append(sc.Pre, LimEv{IP: r.Int(nip), Conn: r.Int(nconn), Op: ops[r.Int(len(ops))]})
+			}
+			sc.PreSleepNs = int64(2*3600) * 1e9
+			sc.Sched.HorizonS = 4 * 3600
+			sc.Cfg.CleanupMs = []int{1, 100, 1000}[r.Int(3)]
+		}
 		return sc
 	}
 	sc := &LimScn{Kind: "C18", Cfg: genLimCfg(r), Sched: SeqSched(r.Uint64())}
@@ -563,7 +586,7 @@ func init() {
 	real := []string{"RateLimiter", "TokenBucket", "PerIPLimiter (incl. cleanup)", "PerOperationLimiter (incl. cleanup)", "per-connection sync.Map limiters"}
 	stub := []string{"clock (synctest fake clock)", "sync.Mutex (simrt equivalents)", "the connection loop is not in this family (it is exercised by C14/C16)"}
 	Register(&Prop{ID: "C18", Level: "exploration",
-		Rule: "one case = a timing sequence of 10-70 AllowRequest/AllowOperation events over 1-3 IPs, 1-3 connections and all four operation types on the fake clock, with gaps drawn from {0, a third of a token, just over k tokens, milliseconds, seconds, hours (longer than CleanupInterval)} and rates/bursts incl. zero and the fractional mount rate; oracles: per limiter instance admitted <= burst + rate*elapsed at every prefix (reference buckets), a request inside all limits is admitted when nothing was refused before, and the same sequence under CleanupInterval 1 ms and 24 h yields identical decisions; 25% of the cases are concurrent: 2-4 tasks issue 1-4 AllowRequest/AllowOperation calls each for 1-2 addresses and connections at ONE simulated instant under the seeded scheduler (buckets are created while others look them up) and every limit may then admit at most its burst; non-trivial = at least one event; distinct by event digest",
+		Rule: "one case = a timing sequence of 10-70 AllowRequest/AllowOperation events over 1-3 IPs, 1-3 connections and all four operation types on the fake clock, with gaps drawn from {0, a third of a token, just over k tokens, milliseconds, seconds, hours (longer than CleanupInterval)} and rates/bursts incl. zero and the fractional mount rate; oracles: per limiter instance admitted <= burst + rate*elapsed at every prefix (reference buckets), a request inside all limits is admitted when nothing was refused before, and the same sequence under CleanupInterval 1 ms and 24 h yields identical decisions; 25% of the cases are concurrent: 2-4 tasks issue 1-4 AllowRequest/AllowOperation calls each for 1-2 addresses and connections at ONE simulated instant under the seeded scheduler (buckets are created while others look them up; in half of these after earlier traffic and a silence of two hours, so that the periodic cleanup of idle limiters runs in the middle of the burst) and every limit may then admit at most its burst; non-trivial = at least one event; distinct by event digest",
 		Gen:  genC18, New: func() any { return &LimScn{} }, Run: runLimiter, Shrink: shrinkLim, Real: real, Stubbed: stub})
 	Register(&Prop{ID: "C19", Level: "exploration",
 		Rule: "one case = 20-100 events: an abusive client sending far beyond its per-IP/per-connection limit interleaved on the fake clock with compliant clients spaced seconds apart, under small global budgets; oracle: with reference buckets charged only by admitted requests, a compliant request inside its own limits is admitted whenever the admitted total leaves a token in the global budget; 25% of the cases are concurrent: an abusive client (3-7 requests) and 1-3 fresh clients call AllowRequest at one simulated instant from separate tasks under the seeded scheduler (global budget 1-3, per-client burst 1-2) and the decisions are checked with porcupine against a specification in which an admission needs room in both budgets and a refusal needs either an exhausted global budget (counting admitted requests only) or a client that has itself issued its burst; non-trivial = at least one event (>= 3 requests from >= 2 tasks when concurrent); distinct by event digest",
